@@ -187,6 +187,40 @@ type xcase struct {
 	// Pace: the connection honours read deadlines, the sender paces its envelopes
 	// and the consumer pauses between items (pace.go)
 	Pace *paceSpec `json:"pace,omitempty"`
+	// Dgram: Transfer.Conn is a caller-supplied datagram connection (a net.PacketConn, as
+	// dns.Dial("udp", ...) gives one): every envelope is one datagram, no length prefix
+	// (IXFR over UDP, RFC 1995 section 2); UDPSize is the field of that dns.Conn (dgram.go)
+	Dgram   bool   `json:"datagram_conn,omitempty"`
+	UDPSize uint16 `json:"udp_size,omitempty"`
+	// how the TSIG names are spelled (names.go).  KeyName is the key name as the caller
+	// wrote it in Transfer.TsigSecret and SetTsig; AlgSpell the algorithm name as the caller
+	// wrote it in SetTsig ("" = the lower case constant of Alg); PeerKeyName / PeerAlg what
+	// the peer puts on the wire in its envelopes ("" = the caller's spelling, echoed)
+	AlgSpell    string `json:"alg_as_spelled,omitempty"`
+	PeerKeyName string `json:"peer_key_name_on_the_wire,omitempty"`
+	PeerAlg     string `json:"peer_alg_on_the_wire,omitempty"`
+}
+
+// algName: the algorithm name as the caller spells it
+func (c xcase) algName() string {
+	if c.AlgSpell != "" {
+		return c.AlgSpell
+	}
+	return algOf(c.Alg).name
+}
+
+// peerKey / peerAlg: key and algorithm name as the peer spells them on the wire
+func (c xcase) peerKey() string {
+	if c.PeerKeyName != "" {
+		return c.PeerKeyName
+	}
+	return c.kname()
+}
+func (c xcase) peerAlg() string {
+	if c.PeerAlg != "" {
+		return c.PeerAlg
+	}
+	return c.algName()
 }
 
 func (c xcase) kname() string {
@@ -306,6 +340,12 @@ type scriptConn struct {
 	rdl, rdlSet time.Time
 	noDeadline  int // envelope reads begun with no read deadline in force
 	pace        *pacer
+	// dgram: a datagram connection (dgram.go) - every frame of the script is one
+	// datagram (its payload: the frame without the length prefix), a Read takes one
+	// datagram and what does not fit into the caller's buffer is discarded
+	dgram     bool
+	writes    int // Write calls
+	discarded int // octets of datagrams that did not fit into the buffer of the Read that took them
 }
 
 type timeoutErr struct{}
@@ -341,6 +381,26 @@ func (s *scriptConn) Read(p []byte) (int, error) {
 			}
 		}
 	}
+	if s.dgram {
+		// the next datagram, whole: data[off+2 : end of its frame] (a frame the
+		// script cut short is a datagram cut short)
+		k, _ := s.frameAt()
+		end := len(s.data)
+		if k < len(s.ends) && s.ends[k] < end {
+			end = s.ends[k]
+		}
+		var payload []byte
+		if s.off+2 < end {
+			payload = s.data[s.off+2 : end]
+		}
+		n := copy(p, payload)
+		s.discarded += len(payload) - n
+		s.off = end
+		if s.pace != nil {
+			s.pace.delivered(s)
+		}
+		return n, nil
+	}
 	n := len(p)
 	if s.chunk > 0 && n > s.chunk {
 		n = s.chunk
@@ -360,6 +420,12 @@ func (s *scriptConn) Write(p []byte) (int, error) {
 	defer s.mu.Unlock()
 	if s.closed > 0 {
 		return 0, net.ErrClosed
+	}
+	s.writes++
+	if s.dgram {
+		// one datagram; kept as the stream transports frame it (length first), so that
+		// everything that looks at the query finds it where it always is
+		s.wrote = append(s.wrote, byte(len(p)>>8), byte(len(p)))
 	}
 	s.wrote = append(s.wrote, p...)
 	if s.pace != nil {
@@ -448,7 +514,7 @@ func buildFrame(c xcase, r readSpec, macs map[int]string, now int64) []byte {
 	var prevMAC []byte
 	if r.Sig != nil {
 		s := r.Sig
-		name, sec := c.kname(), c.rsecret()
+		name, sec := c.peerKey(), c.rsecret()
 		switch s.Key {
 		case 1:
 			sec = c.osecret()
@@ -467,12 +533,16 @@ func buildFrame(c xcase, r readSpec, macs map[int]string, now int64) []byte {
 		var b []byte
 		var mac string
 		if s.Ref {
-			b, mac = refSign(plain, name, c.Alg, sec, uint64(ts), 300, prev, s.To)
+			b, mac = refSign(plain, name, c.peerAlg(), sec, uint64(ts), 300, prev, s.To)
 		} else {
-			m.SetTsig(name, algOf(c.Alg).name, 300, ts)
+			m.SetTsig(name, c.peerAlg(), 300, ts)
 			b, mac, err = dns.TsigGenerate(m, sec, prev, s.To)
 			if err != nil {
-				panic(err)
+				// the sender's side of the library refuses to sign a well-formed envelope: reported,
+				// and the envelope is signed by the harness's own signer so that the run goes on
+				Viol("C15/tsig-generate-error", "dns.TsigGenerate failed for a well-formed envelope, key and algorithm: "+err.Error(),
+					map[string]any{"case": c, "key_name": name, "algorithm": c.peerAlg()})
+				b, mac = refSign(plain, name, c.peerAlg(), sec, uint64(ts), 300, prev, s.To)
 			}
 		}
 		if _, dup := macs[s.Tag]; !dup {
@@ -583,6 +653,8 @@ type obs struct {
 	query    []byte // what Transfer.In wrote to the connection
 	noDeadline int       // envelope reads begun with no read deadline in force
 	paceLog    []paceRow // paced transfers: the deadline in force at every envelope read
+	writes     int       // Write calls on the connection
+	discarded  int       // datagram connection: octets that did not fit into the library's read buffer
 }
 
 func errClass(err error) string {
@@ -618,7 +690,7 @@ func mkQuery(c xcase) *dns.Msg {
 	}
 	q.Id = c.Qid
 	if c.Tsig && c.QSigned {
-		q.SetTsig(c.kname(), algOf(c.Alg).name, 300, time.Now().Unix())
+		q.SetTsig(c.kname(), c.algName(), 300, time.Now().Unix())
 	}
 	return q
 }
@@ -681,9 +753,12 @@ func runScripted(c xcase) obs { return runScriptedOn(new(dns.Transfer), c) }
 // runScriptedOn: the transfer described by c made with the Transfer value t (a
 // new one, or one that has made other transfers before: seq.go)
 func runScriptedOn(t *dns.Transfer, c xcase) obs {
-	sc := &scriptConn{chunk: c.Chunk, stall: c.Stall}
+	sc := &scriptConn{chunk: c.Chunk, stall: c.Stall, dgram: c.Dgram}
 	sc.script = func(q []byte) ([]byte, []int) { return buildStream(c, q) }
 	t.Conn = &dns.Conn{Conn: sc}
+	if c.Dgram {
+		t.Conn = &dns.Conn{Conn: dgramConn{sc}, UDPSize: c.UDPSize}
+	}
 	t.TsigSecret = nil
 	if c.Tsig {
 		t.TsigSecret = c.recvKeys()
@@ -709,6 +784,7 @@ func runScriptedOn(t *dns.Transfer, c xcase) obs {
 	sc.mu.Unlock()
 	sc.mu.Lock()
 	o.query = clone(sc.wrote)
+	o.writes, o.discarded = sc.writes, sc.discarded
 	sc.mu.Unlock()
 	// A frame cut short is one class of failed read in the model.  Depending on
 	// where the cut falls the error is EOF, unexpected EOF, an unpack error or
@@ -785,6 +861,9 @@ func check(c xcase, o obs, ex *expect) {
 		}
 	}
 	checkQuery(c, o, in)
+	if c.Dgram {
+		checkDatagramQuery(c, o, in)
+	}
 	if ex == nil {
 		return
 	}
@@ -1555,6 +1634,12 @@ func runC15(r *Rng, tier string, n int) {
 	// ---- T. sequences of transfers while the TSIG configuration changes, incoming and outgoing (seq.go)
 	seqIn(r, thorough)
 	seqOut(r, thorough)
+
+	// ---- U. transfers over a caller-supplied datagram connection: answer datagrams of every size (dgram.go)
+	dgramFamilies(r, thorough)
+
+	// ---- V. TSIG key and algorithm names spelled in mixed case, against the harness's own RFC 8945 signer / verifier (names.go)
+	namesFamilies(r, thorough)
 
 	// ---- P (end). the paced transfers started at the top have run meanwhile
 	paced.finish()
